@@ -19,14 +19,18 @@
 (***************************************************************************)
 EXTENDS Naturals, Sequences, TLC, Json
 
-CONSTANTS Emit
+CONSTANTS Emit,
+          HookMode   \* TRUE: the small family of types that size themselves in a GnarkInitHook (enumerated exhaustively)
 
 \* "-,public" / "-,secret": only the exact tag "-" omits a field; a name "-" with options is an (invalid) name, the field
 \* keeps its Go name and the option applies (frontend/circuit.go documents `gnark:"-,public"`... as a valid minimal circuit)
 Tags == {"", "public", "secret", "-", "inherit", "nm", "nm,public", "nm,secret", "-,public", "-,secret"}
 \* "arr7": [7]Variable (together with other fields: more than 12 leaves); "tri": [3]Row, Row = struct{Cells []Variable},
 \* with 0, 2 and 1 cells: values of one struct type of which the first holds no leaf
-TopKinds == {"leaf", "arr", "sli0", "sli2", "struct", "ptr", "emb", "arr7", "tri"}
+\* "hookvec": a named slice type `type V []Variable` whose GnarkInitHook allocates two elements; "hookstruct": a struct whose
+\* hook allocates its slice field.  The schema walk runs the hook BEFORE descending, on values of any kind, so such a field
+\* contributes the leaves of its initialised form although the circuit object handed to Compile is empty.
+TopKinds == IF HookMode THEN {"leaf", "hookvec", "hookstruct"} ELSE {"leaf", "arr", "sli0", "sli2", "struct", "ptr", "emb", "arr7", "tri"}
 SubKinds == {"leaf", "arr", "deep"}        \* "deep": a struct with a single leaf field tagged subtag2
 
 VARIABLES fields,     \* sequence of root fields [tag, kind, sub]; sub = sequence of [tag, kind, tag2]
@@ -41,6 +45,7 @@ OptOf(tag) == IF tag \in {"public", "nm,public", "-,public"} THEN "public" ELSE 
 AddField ==
   /\ phase = "field" /\ Len(fields) < 3
   /\ \E t \in Tags, k \in TopKinds :
+       /\ (HookMode => t \in {"", "public", "secret"} /\ Len(fields) < 2)
        /\ (k = "emb" => t = "")          \* gnark flattens embedded structs: a tag on the embedded field itself is not documented
        /\ t # "inherit"                  \* "inherit" needs an enclosing field with an explicit visibility
        /\ fields' = Append(fields, [tag |-> t, kind |-> k, sub |-> <<>>])
@@ -86,7 +91,7 @@ FieldLeaves(i, f) ==
          [] f.kind = "arr7" -> [j \in 1..7 |-> [path |-> <<i, j - 1>>, vis |-> Final(v)]]
          [] f.kind = "tri"  -> <<[path |-> <<i, 1, 0>>, vis |-> Final(v)], [path |-> <<i, 1, 1>>, vis |-> Final(v)], [path |-> <<i, 2, 0>>, vis |-> Final(v)]>>
          [] f.kind = "sli0" -> <<>>
-         [] f.kind = "sli2" -> <<[path |-> <<i, 0>>, vis |-> Final(v)], [path |-> <<i, 1>>, vis |-> Final(v)]>>
+         [] f.kind \in {"sli2", "hookvec", "hookstruct"} -> <<[path |-> <<i, 0>>, vis |-> Final(v)], [path |-> <<i, 1>>, vis |-> Final(v)]>>
          [] OTHER -> SubSeq2(<<i>>, f.sub, 1, v)
 
 RECURSIVE AllLeaves(_)
